@@ -371,7 +371,7 @@ fn cmd_check(args: &[String]) -> i32 {
         // does the violating world reproduce on its own (fresh process)?
         let raw_path = runner::write_replay(&replay_dir, &id, seed, tier, f, &f.schedule, false, gi);
         let (min_sched, tries, path) = if confirm(&raw_path) {
-            let (m, t) = runner::minimise(&f.schedule, &id, &f.v.oracle, budget(300));
+            let (m, t) = runner::minimise(&f.schedule, &id, &f.v.oracle, &f.v.key, budget(300));
             let p = runner::write_replay(&replay_dir, &id, seed, tier, f, &m, true, gi);
             (m, t, p)
         } else {
@@ -380,7 +380,7 @@ fn cmd_check(args: &[String]) -> i32 {
             println!("  note: the violating world alone does not reproduce; replaying run {} as a whole (hidden state across operations)", f.run);
             match runner::recorded_schedule("run", seed, &id, tier, f.run, 1, &f.v.oracle) {
                 Some(full) => {
-                    let (m, t) = runner::minimise(&full, &id, &f.v.oracle, budget(200));
+                    let (m, t) = runner::minimise(&full, &id, &f.v.oracle, &f.v.key, budget(200));
                     let p = runner::write_replay(&replay_dir, &id, seed, tier, f, &m, true, gi);
                     (m, t, p)
                 }
